@@ -174,6 +174,17 @@ func ruleOneAggregation(r *Run, rule string, fn *ssa.Function, dir, kind string)
 			}
 			okID := strings.Contains(ids, "next(range(") && strings.Contains(ids, ")#1")
 			r.Check(okID, rule, "agg:"+name+":id", w.InstrPos(app)+" "+name, "the emitted id is the per-id map's key", "the emitted id is "+ids)
+			// a node looked up by id in a side map: that map must have been given every input's node under its id
+			if lk, isLk := idv.(*ssa.Lookup); isLk && f["Node"] != nil {
+				given := false
+				for _, mu := range mapUpdatesOf(fn) {
+					if mu.Map == lk.X && c.S(mu.Key) == "get:id(P1[range].Node)" && c.S(mu.Value) == "P1[range].Node" {
+						given = true
+					}
+				}
+				r.Check(given, rule, "agg:"+name+":node", w.InstrPos(app)+" "+name, "the node emitted for an id is the node of an input result with that id",
+					"the emitted node is looked up in a map that is never given the input results' nodes under their ids: every output carries an empty node")
+			}
 		}
 	}
 	// (4) every input result is filed under its own id
